@@ -1,4 +1,35 @@
-(* C13 — Values survive their stored text and JSON forms.  Statements only; proofs are in proofs/. *)
+(* C13 — Values survive their stored text and JSON forms.  Statements only; proofs are in proofs/.
+   Models: model/NumText.v (numbers: XNumber.Render = decimal.String, ToXNumber on text, the "=" operator). *)
 From Coq Require Import ZArith NArith List Bool.
-From Verif Require Import lib.Dec model.NumText model.C13Corr.
+From Verif Require Import lib.Dec model.NumText proofs.NumTextProofs.
 Import ListNotations.
+
+(* Every number renders to text that converts back to the same number.  For ALL decimals mant * 10^dexp of the
+   type (any sign, any mantissa, exponent an int32: only the lower bound is needed): the conversion accepts the
+   rendering (space trimming, the decimalRegexp test, NewFromString and its exponent range test all pass) and the
+   number it yields is numerically equal (Decimal.Cmp = 0) to the one rendered. *)
+Theorem c13_number_roundtrip : forall d : dec, (int32_min <= dexp d)%Z ->
+  exists d', parse_number (render d) = Some d' /\ dec_eq d' d.
+Proof. exact parse_number_render. Qed.
+Print Assumptions c13_number_roundtrip.
+
+(* the same without the type's range test, for every exponent whatsoever; the exponent of the re-read number lies
+   between min(dexp d, 0) and 0, which is why an int32 exponent can never fail the range test *)
+Theorem c13_number_roundtrip_any_exponent : forall (chk : Z -> bool) (d : dec), exists e,
+  (Z.min (dexp d) 0 <= e <= 0)%Z /\
+  exists d', dec_eq d' d /\ dexp d' = e /\
+             parse_number_with chk (render d) = if chk e then Some d' else None.
+Proof. exact parse_number_with_render. Qed.
+Print Assumptions c13_number_roundtrip_any_exponent.
+
+(* The "=" operator agrees with the canonical renderings: two numbers are "=" exactly when they render
+   identically, and they render identically exactly when they are numerically equal (so the rendering is
+   canonical: 1.50 and 1.5, 100e-2 and 1 give the same text; and injective on values). *)
+Theorem c13_equal_agrees : forall a b : dec,
+  (equal_num a b = true <-> render a = render b) /\ (render a = render b <-> dec_eq a b).
+Proof. exact equal_agrees. Qed.
+Print Assumptions c13_equal_agrees.
+
+Theorem c13_equal_is_numeric : forall a b : dec, equal_num a b = dec_eqb a b.
+Proof. exact equal_num_spec. Qed.
+Print Assumptions c13_equal_is_numeric.
